@@ -1,10 +1,11 @@
 PROPERTY = "C15"
 LEVEL = "proof"
-LEAN_MODULES = ["CifModel.Props.C15"]
+LEAN_MODULES = ["CifModel.Props.C15", "CifModel.Props.ReviewC15"]
 REQUIRED = ["CifModel.C15_skip_depth_balanced", "CifModel.C15_skip_depth_nonneg", "CifModel.C15_skip_depth_cif", "CifModel.C15_stop_is_last", "CifModel.C15_end_ok", "CifModel.C15_positive_aborts", "CifModel.C15_skip_opens_region", "CifModel.C15_skipped_region_silent", "CifModel.C15_syntax_only_same_log", "CifModel.C15_value_mirror", "CifModel.C15_all_continue_mirror", "CifModel.C15_all_continue_mirror_parseCB", "CifModel.C15_stored_is_structural", "CifModel.C15_skip_semantics_rest", "CifModel.C15_unfiltered_is_denote", "CifModel.C15_result_nonneg", "CifModel.C15_positive_aborts_local",
             "CifModel.C15_loop_start_local", "CifModel.C15_cex_loop_start_pinned", "CifModel.C15_loop_start_code_returned",
             "CifModel.C15_stored_is_structural_any", "CifModel.C15_stop_semantics_store", "CifModel.C15_cut_extends_pruned",
-            "CifModel.C15_dup_all_continue_mirror"]
+            "CifModel.C15_dup_all_continue_mirror", "CifModel.C15_events_sublist", "CifModel.C15_denote_is_grammar_denote",
+            "CifModel.C15_all_continue_stores_grammar_denote", "CifModel.C15_ws_reported_in_order"]
 GEN = ["ErrCodes"]
 FAMILIES = ["pcb"]
 TRUSTED_BASE = [
@@ -28,11 +29,18 @@ ASSUMPTIONS = [
 ]
 PARTIAL = [
     "the document-level theorems (C15_all_continue_mirror, C15_stored_is_structural(_any), C15_skip_semantics_rest, "
-    "C15_stop_semantics_store) are about the layout-free token sequence tokensOf d of a well-formed abstract document; "
-    "whitespace/comment callbacks are covered by the token-sequence theorems and by the correspondence run.  The store is "
-    "characterised for EVERY program (C15_stop_semantics_store: pruned and cut at the stopping answer, cutDoc); the callback "
-    "LOG at document level is characterised declaratively only for all-continue programs (docEvents), for other programs it "
-    "is that of the structural interpreter xDoc",
+    "C15_stop_semantics_store, C15_events_sublist) are about the LAYOUT-FREE token sequence tokensOf d of a well-formed, "
+    "duplicate-free abstract document (wfDocN norm d, any normalisation norm; with duplicates: parseCBD, "
+    "C15_dup_all_continue_mirror).  Whitespace / comment callbacks: proved per token only (C15_ws_reported_in_order: "
+    "next_token reports the layout in front of a token in order, comments always, whitespace unless skipping, once); their "
+    "order across a whole document and the independence of everything else from layout are NOT theorems — they are checked "
+    "by the correspondence run (the oracle compares the concatenated whitespace callbacks with the document's layout, all "
+    "layouts of the renderer)",
+    "the store is characterised for EVERY program (C15_stop_semantics_store: pruned and cut at the stopping answer, cutDoc) "
+    "and agrees with the independent Spec/Grammar denotation (C15_denote_is_grammar_denote); the callback LOG at document "
+    "level is characterised exactly for all-continue programs (= docEvents) and for every program as a sublist of docEvents "
+    "in document order (C15_events_sublist); which callbacks are left out is said through the structural interpreter xDoc "
+    "(C15_stored_is_structural_any) and the region theorems, not by a closed declarative formula",
     "C15_syntax_only_same_log assumes a handler program that does not look at the (NULL in syntax-only mode) handles and that "
     "the storing parse does not stop on a frame-nesting diagnostic (input not well-formed under the options)",
     "duplicate block/frame codes and data names (DUP_* diagnostics, accepting error callback): modelled (parseCBD), covered "
